@@ -1091,6 +1091,14 @@ func registerObservers(m *cors.Middleware) {
 				v.Method(i).Call([]reflect.Value{cb})
 				unknownAPICalls++
 			}()
+		case arg.Kind() == reflect.Bool:
+			// an unknown switch (SetStrict(bool), EnableX(bool) ...): switched ON, on every
+			// middleware alike - subject and reference of a differential check get the same
+			func() {
+				defer func() { recover() }()
+				v.Method(i).Call([]reflect.Value{reflect.ValueOf(true)})
+				unknownAPICalls++
+			}()
 		case arg == reflect.TypeOf((*log.Logger)(nil)):
 			func() {
 				defer func() { recover() }()
